@@ -38,4 +38,10 @@ theorem tr_pathIsInside_spec (clean : Path → Path) (test parent : Path) :
 example : Gen.tr_pathIsInside cleanAbs "/a/b/../c/d".toList "/a/c".toList = true ∧
     Gen.tr_pathIsInside cleanAbs "/a/cd".toList "/a/c".toList = false := by decide
 
+/-- FAIL CLOSED (second audit pass, X2/X3): the tie theorems of this file are about the
+definition(s) TRANSLATED FROM THE TREE UNDER TEST, not about the committed default the
+extractor falls back to when the source leaves the translated subset – in that
+case this obligation breaks and `./check` reports it (besides the note). -/
+theorem translated_from_tree_under_test : Gen.tr_pathIsInside_extracted = true := by decide
+
 end Props.C04
